@@ -665,6 +665,7 @@ def add_external_block_ops(rng, h, p=0.35):
                 ops[-1]["stats"] = gen_stats(rng)
             if rng.random() < 0.15:
                 # the kept block is moved / copied to another object, which takes its place
-                ops.append({"op": "xmove", "how": rng.choice(["mctor", "cctor", "massign", "cassign", "vector"])})
+                ops.append({"op": "xmove", "how": rng.choice(["mctor", "cctor", "massign", "cassign", "vector"])}
+                           if rng.random() < 0.6 else {"op": "xreload"})
     h["ops"] = ops
     return respect_header(h)
